@@ -284,6 +284,12 @@ func (sq *SyncQueue) ResourceEventHandler(scheme *runtime.Scheme) cache.Resource
 	enqueue := func(action string, obj interface{}) {
 		runtimeObj, ok := obj.(runtime.Object)
 		if !ok {
+			// a deletion tombstone is not a runtime.Object itself, it carries one
+			if tombstone, isTombstone := obj.(cache.DeletedFinalStateUnknown); isTombstone {
+				runtimeObj, ok = tombstone.Obj.(runtime.Object)
+			}
+		}
+		if !ok {
 			return
 		}
 
